@@ -92,16 +92,16 @@ func init() {
 			var jobs []Job
 			progs := c07Programs(tier)
 			for _, p := range progs {
-				jobs = append(jobs, Job{Prop: "C07", Pkg: "eval", Func: "VerifNoPanic", Args: []string{p, "reg"}})
+				jobs = append(jobs, Job{Prop: "C07", Pkg: "eval", Func: "VerifNoPanic", Args: []string{p, "reg"}, MaxDec: 600})
 			}
 			if tier == "thorough" {
 				for _, p := range progs {
-					jobs = append(jobs, Job{Prop: "C07", Pkg: "eval", Func: "VerifNoPanic", Args: []string{p, "noreg"}})
+					jobs = append(jobs, Job{Prop: "C07", Pkg: "eval", Func: "VerifNoPanic", Args: []string{p, "noreg"}, MaxDec: 600})
 				}
 			} else {
 				for i, p := range progs {
 					if i%7 == 0 {
-						jobs = append(jobs, Job{Prop: "C07", Pkg: "eval", Func: "VerifNoPanic", Args: []string{p, "noreg"}})
+						jobs = append(jobs, Job{Prop: "C07", Pkg: "eval", Func: "VerifNoPanic", Args: []string{p, "noreg"}, MaxDec: 600})
 					}
 				}
 			}
